@@ -137,7 +137,7 @@ func runC18(c *Ctx) {
 				continue
 			}
 			_, del := hasLit(s, mustRe(`^call:delete$`))
-			_, allowed := hasLit(s, mustRe(`^phi:is_allowed(~\d+)?$|^rpc\.allow_sign_\w+$`))
+			_, allowed := hasLit(s, mustRe(`^`+PH+`$|^rpc\.allow_sign_\w+$`))
 			if !del && !allowed {
 				okA = false
 				detail = "a loop iteration keeps a protected method without is_allowed: " + strings.Join(guardLits(s), "; ")
@@ -146,10 +146,12 @@ func runC18(c *Ctx) {
 		c.Ob("C18-R2", "protected method kept only under is_allowed", c.FnPos(fn), okA, detail)
 		// (b) is_allowed phi: each incoming value is false or an allow_sign_* global under the matching HasSuffix literal
 		want := map[string]string{"rpc.allow_sign_ipc": ".startIPC", "rpc.allow_sign_inProc": ".startInProc", "rpc.allow_sign_http": ".startHTTP", "rpc.allow_sign_ws": ".startWS"}
-		ff := c.FactsFocus(fn, `^!?strings\.HasSuffix\(`, true, "is_allowed")
-		phi, rows := ff.PhiTable("is_allowed")
+		// the gate variable is identified by the values it can take: false or one of the opt-in globals
+		ff := c.FactsFocus(fn, `^!?strings\.HasSuffix\(`, true)
+		phi := phiByLeaves(c, fn, func(t string) bool { _, isVar := want[t]; return t == "false" || isVar })
+		rows := ff.PhiTableOf(phi)
 		if phi == nil {
-			c.Ob("C18-R2", "is_allowed selection", c.FnPos(fn), false, "no phi named is_allowed")
+			c.Ob("C18-R2", "is_allowed selection", c.FnPos(fn), false, "no boolean selected among false and the allow_sign_* variables found")
 		}
 		seen := map[string]bool{}
 		for _, r := range rows {
@@ -253,8 +255,53 @@ func runC18(c *Ctx) {
 				}
 			}
 		}
+		// the opt-in is decided when a server is filled, by the name of the start function that fills it: a transport
+		// must therefore serve exactly the server its own start function created, never one filled for another
+		// transport. Every *rpc.Server value used in a start function resolves (through all phi edges) to the
+		// rpc.NewServer() call of that function.
+		for _, name := range []string{"startInProc", "startIPC", "startHTTP", "startWS"} {
+			fn := c.Fn("node:(*Node)." + name)
+			news := callSites(fn, `^rpc\.NewServer$`)
+			if len(news) != 1 {
+				c.Ob("C18-R3", "Node."+name+" creates one server", c.FnPos(fn), false, fmt.Sprintf("%d rpc.NewServer calls", len(news)))
+				continue
+			}
+			own := news[0].Value()
+			uses := 0
+			okAll, bad := true, ""
+			for _, b := range fn.Blocks {
+				for _, ins := range b.Instrs {
+					for _, op := range ins.Operands(nil) {
+						if *op == nil || (*op).Type().String() != "*"+modPath+"/rpc.Server" || ins == news[0] {
+							continue
+						}
+						if _, isPhi := ins.(*ssa.Phi); isPhi {
+							continue
+						}
+						uses++
+						srcs := []ssa.Value{*op}
+						// a variable captured by a closure lives in a cell: the values stored into it are what it may hold
+						if u, isLoad := (*op).(*ssa.UnOp); isLoad {
+							if al, isAl := u.X.(*ssa.Alloc); isAl {
+								srcs = storesInto(fn, al)
+							}
+						}
+						var leaves []ssa.Value
+						for _, sv := range srcs {
+							leaves = append(leaves, phiLeaves(sv)...)
+						}
+						for _, l := range leaves {
+							if l != own {
+								okAll, bad = false, c.termOf(fn, *op)+" may be "+c.termOf(fn, l)+" at "+c.Position(ins.Pos())
+							}
+						}
+					}
+				}
+			}
+			c.Ob("C18-R3", "Node."+name+" registers on, serves and stores only the server it created itself", c.FnPos(fn), okAll && uses >= 2, fmt.Sprintf("%d uses of a *rpc.Server value; %s", uses, bad))
+		}
 	})
-	c.Min("C18-R3", 5)
+	c.Min("C18-R3", 9)
 }
 
 type svcType struct {
